@@ -667,7 +667,9 @@ def Ctx.opDelTopic (c : Ctx) (a : Actor) (tn : TName) (hard : Bool) : Ctx :=
     let (c, ok) := c.call "SubsForTopic"
     if !ok then c.emit a.sid (ctrl 500 tn) else
     let subs := (((c.w.row? tn).map (·.subs)).getD []).filter (!·.deleted)
-    if subs.isEmpty then c.emit a.sid (ctrl 304 tn) else
+    if subs.isEmpty then
+      -- what is left of a p2p topic nobody is subscribed to is removed (hub.go:464-471)
+      (if tn.startsWith "P:" then (c.call "TopicDelete" (fun w => w.delRow tn)).1 else c).emit a.sid (ctrl 304 tn) else
     match subs.find? (·.user = a.uid) with
     | none => c.emit a.sid (ctrl 304 tn)
     | some sub =>
